@@ -43,14 +43,16 @@ Qed.
 
 Lemma D10_parts : forall e gs cs outs, D10 e gs cs outs = true ->
   ks e = true /\ strlit_invalid e = false /\ fix9 e = true /\ fix14 e = true /\ fixoid e = true /\ fixsb e = true /\
-  fixzone e = true /\
-  forallb graph_nodup gs = true /\ Forall d3c cs /\ (exists c cs', cs = c :: cs' /\ c_opt c = false) /\ nodup_str outs = true.
+  fixzone e = true /\ fixs3 e = true /\
+  forallb graph_nodup gs = true /\ Forall d3c cs /\
+  (exists c cs', cs = c :: cs' /\ c_opt c = false /\ specificity3 c = false) /\ nodup_str outs = true.
 Proof.
   intros e gs cs outs H. unfold D10 in H.
   apply andb_prop in H. destruct H as [H Hout].
   apply andb_prop in H. destruct H as [H Hfirst].
   apply andb_prop in H. destruct H as [H Hcl].
   apply andb_prop in H. destruct H as [H Hg].
+  apply andb_prop in H. destruct H as [H Hs3].
   apply andb_prop in H. destruct H as [H Hz].
   apply andb_prop in H. destruct H as [H Hsb].
   apply andb_prop in H. destruct H as [H Hoid].
@@ -60,7 +62,8 @@ Proof.
   apply negb_true_iff in Hsl.
   repeat split; try assumption.
   - apply forallb_d10. exact Hcl.
-  - destruct cs as [|c cs']; [discriminate|]. exists c, cs'. split; [reflexivity|apply negb_true_iff; exact Hfirst].
+  - destruct cs as [|c cs']; [discriminate|]. exists c, cs'. split; [reflexivity|].
+    apply andb_prop in Hfirst. destruct Hfirst as [F1 F2]. split; apply negb_true_iff; assumption.
 Qed.
 
 (* D3 is the part of D10 without OPTIONAL clauses *)
@@ -75,7 +78,7 @@ Proof.
   { clear -Hcl. induction cs as [|c cs IH]; [split; reflexivity|]. cbn in *. apply andb_prop in Hcl. destruct Hcl as [A B].
     unfold d3_clause in A. apply andb_prop in A. destruct A as [A1 A2]. destruct (IH B) as [I1 I2]. rewrite A1, A2, I1, I2. split; reflexivity. }
   destruct Hcl' as [C1 C2]. split; [|exact C2].
-  rewrite H, C1, Hout. cbn. destruct cs as [|c cs']; [discriminate|]. cbn in C2. apply andb_prop in C2. destruct C2 as [C2 _]. rewrite C2. reflexivity.
+  rewrite H, C1, Hout. cbn. destruct cs as [|c cs']; [discriminate|]. cbn in C2. apply andb_prop in C2. destruct C2 as [C2 _]. rewrite C2, Hne. reflexivity.
 Qed.
 
 Lemma D3_parts : forall e gs cs outs, D3 e gs cs outs = true ->
@@ -83,7 +86,7 @@ Lemma D3_parts : forall e gs cs outs, D3 e gs cs outs = true ->
   forallb graph_nodup gs = true /\ Forall d3c cs /\ cs <> [] /\ nodup_str outs = true.
 Proof.
   intros e gs cs outs H. destruct (D3_D10 _ _ _ _ H) as [H10 _].
-  destruct (D10_parts _ _ _ _ H10) as [Hks [Hsl [H9 [H14 [Hoid [Hsb [Hz [Hg [HD [[c [cs' [E _]]] Ho]]]]]]]]]].
+  destruct (D10_parts _ _ _ _ H10) as [Hks [Hsl [H9 [H14 [Hoid [Hsb [Hz [Hs3 [Hg [HD [[c [cs' [E _]]] Ho]]]]]]]]]]].
   repeat split; try assumption. subst. discriminate.
 Qed.
 
@@ -93,8 +96,8 @@ Theorem execute_is_spec_select10 : forall e gs glo cs outs projs, D10 e gs cs ou
                   Forall2 orow_equiv rows (spec_select glo gs cs outs projs).
 Proof.
   intros e gs glo cs outs projs H.
-  destruct (D10_parts _ _ _ _ H) as [Hks [Hsl [H9 [H14 [Hoid [Hsb [Hz [Hg [HD [[c [cs' [E Hopt]]] H0]]]]]]]]]]. subst cs.
-  destruct (pattern_is_solutions e gs glo Hks Hsl H9 H14 Hoid Hsb Hz Hg c cs' HD Hopt) as [t [Et Rt]].
+  destruct (D10_parts _ _ _ _ H) as [Hks [Hsl [H9 [H14 [Hoid [Hsb [Hz [Hs3 [Hg [HD [[c [cs' [E [Hopt H3]]]] H0]]]]]]]]]]]. subst cs.
+  destruct (pattern_is_solutions e gs glo Hks Hsl H9 H14 Hoid Hsb Hz Hs3 Hg c cs' HD Hopt H3) as [t [Et Rt]].
   unfold execute. rewrite Et. cbn [bind]. unfold spec_select. rewrite spec_project_eq.
   pose proof (fold_proj_equiv projs _ _ Rt) as Rp. unfold project.
   destruct (map (project_row projs) (trows t)) as [|r0 rs0] eqn:Er.
@@ -107,8 +110,8 @@ Theorem pattern_is_steps10 : forall e gs glo cs outs, D10 e gs cs outs = true ->
   exists t, process_pattern e gs glo cs empty_table = Ok t /\ Forall2 row_equiv (trows t) (spec_solutions glo gs cs).
 Proof.
   intros e gs glo cs outs H.
-  destruct (D10_parts _ _ _ _ H) as [Hks [Hsl [H9 [H14 [Hoid [Hsb [Hz [Hg [HD [[c [cs' [E Hopt]]] H0]]]]]]]]]]. subst cs.
-  apply (pattern_is_solutions e gs glo Hks Hsl H9 H14 Hoid Hsb Hz Hg c cs' HD Hopt).
+  destruct (D10_parts _ _ _ _ H) as [Hks [Hsl [H9 [H14 [Hoid [Hsb [Hz [Hs3 [Hg [HD [[c [cs' [E [Hopt H3]]]] H0]]]]]]]]]]]. subst cs.
+  apply (pattern_is_solutions e gs glo Hks Hsl H9 H14 Hoid Hsb Hz Hs3 Hg c cs' HD Hopt H3).
 Qed.
 
 Theorem execute_is_spec_select : forall e gs glo cs outs projs, D3 e gs cs outs = true ->
